@@ -170,7 +170,15 @@ def judge (prop kind id rest impl : String) : Verdict :=
   | "C19" => judgeC19 kind id rest impl
   | "C07" => judgeC07 kind id rest impl
   | "C04" => judgeC04 id rest impl
-  | "C05" => judgeC05 id rest impl
+  | "C05" =>
+    -- fragmented: "as if the refused call had never been made" is what C10 (the emitted samples are
+    -- exactly the accepted writes; a write is refused iff its dts is below the last ACCEPTED one),
+    -- C11 (timeline from the accepted writes only) and C02 (segment structure) say on the outputs;
+    -- C05 runs them on refusal-rich sequences. Progressive: twin run with the refused calls removed.
+    if kind == "F" then
+      judgeFrag id rest impl (fun rs => projC10 rs ++ " " ++ projC11 rs)
+        (fun ops rs => oracleC10 ops rs && oracleC11 ops rs && oracleC02F rs)
+    else judgeC05 id rest impl
   | _ => { corr := false, oi := false, om := false, note := "unknown property" }
 
 end Driver
